@@ -3,6 +3,7 @@
 let () =
   match Array.to_list Sys.argv with
   | [ _; "segments"; path ] -> Drv_segments.run path
+  | [ _; "crc"; path ] -> Drv_crc.run path
   | _ ->
       prerr_endline "usage: driver <component> <ops>";
       exit 2
